@@ -118,7 +118,7 @@ def run_case(arg):
             from aspire.samples import BaseSamples, Samples, SMCSamples
             from aspire.utils import load_from_h5_file, recursively_save_to_h5_file
             xp = smcdrv.get_xp(c["ns"])
-            n = 5
+            n = int(c.get("rows", 5))
             i = np.arange(1, n + 1, dtype=np.float64)
             x = np.stack([i * 1.25, i + 0.5, -i], axis=1)
             kw = {}
@@ -133,7 +133,7 @@ def run_case(arg):
             if c["cls"] == "SMC":
                 kw.update(beta=0.375, log_evidence=-3.25, log_evidence_error=0.125)
             obj = C(x, xp=xp, dtype=dt, parameters=["q", "m2", "m1"], **kw)      # deliberately not in sorted order
-            tag = f"samples|{c['cls']}|{c['via']}|{c['layout']}|{c['ns']}"
+            tag = f"samples|{c['cls']}|{c['via']}|{c['layout']}|{c['ns']}|rows={n}"
             try:
                 if c["via"] == "save":
                     with h5py.File(path, "w") as f:
@@ -158,14 +158,17 @@ def run_case(arg):
             tag = f"history|{c['cls']}|{c['npops']}|{c['ns']}|{'real' if c['real'] else 'synthetic'}"
             try:
                 if c["cls"] == "FlowHistory":
-                    if c["npops"] > 0 or c["ns"] != "numpy":
+                    if c["ns"] != "numpy" or c["real"]:
                         return out
-                    h = FlowHistory(training_loss=[1.5, 1.25, 1.0] if not c["real"] else [], validation_loss=[2.0, 1.75, 1.5] if not c["real"] else [])
+                    m = c["npops"]         # number of epochs
+                    h = FlowHistory(training_loss=[1.5 - t / 8.0 for t in range(m)], validation_loss=[2.0 - t / 16.0 for t in range(m)])
                     with h5py.File(path, "w") as f:
                         h.save(f)
                     with h5py.File(path, "r") as f:
                         b = FlowHistory.load(f)
-                    if list(map(float, b.training_loss)) != list(map(float, h.training_loss)) or list(map(float, b.validation_loss)) != list(map(float, h.validation_loss)):
+                    if not all(isinstance(v, (list, tuple, np.ndarray)) and np.ndim(v) == 1 for v in (b.training_loss, b.validation_loss)):
+                        out["viol"].append((f"RoundTripEqual|history|FlowHistory|series-shape", f"FlowHistory losses of {m} epoch(s) reload as {b.training_loss!r} / {b.validation_loss!r}, not sequences"))
+                    elif list(map(float, b.training_loss)) != list(map(float, h.training_loss)) or list(map(float, b.validation_loss)) != list(map(float, h.validation_loss)):
                         out["viol"].append((f"RoundTripEqual|{tag}", f"FlowHistory losses {h.training_loss} reload as {b.training_loss!r}"))
                 else:
                     if c["real"] and c["npops"] > 23:
@@ -195,7 +198,11 @@ def run_case(arg):
                         b = SMCHistory.load(f)
                     for s in ("beta", "ess", "ess_target", "eff_target", "log_norm_ratio", "log_norm_ratio_var", "mcmc_acceptance"):
                         u = [float(smcdrv.to_np(v)) for v in getattr(h, s)]
-                        w = [float(v) for v in np.atleast_1d(np.asarray(getattr(b, s), dtype=np.float64))] if len(np.atleast_1d(getattr(b, s))) else []
+                        raw = getattr(b, s)
+                        if not isinstance(raw, (list, tuple, np.ndarray)) or np.ndim(raw) != 1:
+                            out["viol"].append((f"RoundTripEqual|history|SMCHistory|series-shape|{c['ns']}", f"series {s} of length {len(u)} reloads as {type(raw).__name__} {raw!r}, not a sequence"))
+                            continue
+                        w = [float(v) for v in np.asarray(raw, dtype=np.float64)]
                         if u != w:
                             out["viol"].append((f"RoundTripEqual|history|SMCHistory|series|{c['ns']}", f"series {s} {u} reloads as {w}"))
                     if len(b.sample_history) != len(h.sample_history):
